@@ -166,6 +166,34 @@ def relayRun : List RLabel :=
 example : (rrun relayCfg relayCfg (rinit relayCfg relayCfg) relayRun).b.delivered = [[1, 2]] ∧
     (rrun relayCfg relayCfg (rinit relayCfg relayCfg) relayRun).a.completed = [[1, 2]] := by decide
 
+/-! ### `rch::lr` / `rch::base`: a typed channel directly on one port (no local queue)
+
+`lr::Sender::send` = `base::Sender::send` = serialize + `chmux::Sender::send`; a value is accepted exactly
+when its transmission completed, so there is no untransmitted suffix, `close_loses_nothing` /
+`eos_after_all_data` are the "keeps what was transmitted" statements, and the classification of the
+send error (`SendErrorKind::Send(Closed { gracefully })`, `lr::Sender::is_closed`) is the state of the
+credit provider: -/
+
+/-- what an `lr` / `base` sender reports once its credit provider is closed -/
+def lrReason : Option Bool → Option Remoc.Close.Reason
+  | some true => some .closed
+  | some false => some .dropped
+  | none => none
+
+/-- **lr/base classification, first cause wins**: handling `ReceiveClose` makes the sender report
+`Closed`, `ReceiveFinish` `Dropped`, unless it already reports a reason -/
+theorem lr_closed_classified (c : Cfg) (st st' : State) (b : Back) (bs : List Back)
+    (hb : st.back = b :: bs) (hs : step c st .provide = some st') :
+    lrReason st'.s.closed = match lrReason st.s.closed, b with
+      | some r, _ => some r
+      | none, .recvClose => some .closed
+      | none, .recvFinish => some .dropped
+      | none, _ => none := by
+  rw [close_classified c st st' b bs hb hs]
+  cases b <;> cases hcl : st.s.closed <;> (try (rename_i g; cases g)) <;> simp [lrReason]
+
+example : lrReason (run c11 (init c11) closeRun).s.closed = some .closed := by decide
+
 end Remoc.Link
 
 /-! # Typed channels with a local queue: `rch::mpsc`, `rch::oneshot` (M_close) -/
